@@ -86,10 +86,10 @@ def make_scratch(config, repo=REPO):
     ct = os.path.join(d, "Cargo.toml")
     s = open(ct).read()
     if config == "model":
-        s = re.sub(r'members = \[[^\]]*\]', 'members = ["penguin-mux", "cow-bytes"]', s, count=1)
+        s = re.sub(r'members = \[[^\]]*\]', 'members = ["penguin-mux", "cow-bytes", "penguin-socks"]', s, count=1)
         s = re.sub(r'default-members = \[[^\]]*\]', 'default-members = ["penguin-mux"]', s, count=1)
         s += '\n[patch.crates-io]\ntokio = { path = "%s" }\n' % os.path.join(VERIF, "kani", "tokio-model")
-        injections.append("workspace reduced to penguin-mux + cow-bytes; [patch.crates-io] tokio = /verif/kani/tokio-model")
+        injections.append("workspace reduced to penguin-mux + cow-bytes + penguin-socks; [patch.crates-io] tokio = /verif/kani/tokio-model")
         if not os.environ.get("VERIF_REAL_HASHBROWN"):
             s += 'hashbrown = { path = "%s" }\n' % os.path.join(VERIF, "kani", "hashbrown-model")
             injections.append("[patch.crates-io] hashbrown = /verif/kani/hashbrown-model (finite-map model of the flow table's container)")
@@ -264,13 +264,15 @@ def run_harnesses(names, config, crate, features, jobs=8, timeout=3600, extra_ar
         cmd = ["cargo", "kani", "-p", crate, "--no-default-features"]
         if features:
             cmd += ["--features", features]
-        cmd += ["-Z", "stubbing", "-Z", "function-contracts", "--output-format", "terse" if not playback else "regular",
+        cmd += ["-Z", "stubbing", "-Z", "function-contracts", "--output-format", os.environ.get("VERIF_OUTPUT_FORMAT", "terse") if not playback else "regular",
                 "-j", str(jobs)]
         if playback:
             cmd += ["-Z", "concrete-playback", "--concrete-playback=print"]
         for n in names:
             cmd += ["--harness", n]
         cmd += extra_args or []
+        if os.environ.get("VERIF_KANI_EXTRA"):
+            cmd += os.environ["VERIF_KANI_EXTRA"].split()
         env = dict(os.environ)
         env["CARGO_NET_OFFLINE"] = "true"
         env["CARGO_TARGET_DIR"] = target_dir(config)
@@ -328,4 +330,4 @@ if __name__ == "__main__":
         print(k, v["status"], v["time"], v["covers"], [f["desc"] + " @" + f["file"] + ":" + str(f["line"]) for f in v["fails"]])
     if not res or a.playback:
         print(meta["output_tail"])
-    print("wall %.1fs exit %s" % (meta["wall_s"], meta["exit"]))
+    print("wall %.1fs exit %s rss_killed=%s" % (meta["wall_s"], meta["exit"], meta.get("rss_killed")))
